@@ -46,7 +46,7 @@ _abstract_counter = itertools.count()
 class Workload(object):
     """Builds a server with recording methods"""
 
-    def __init__(self, kind, pool_size, family):
+    def __init__(self, kind, pool_size, family, pool_timeout=None):
         from jsonrpclib.SimpleJSONRPCServer import PooledJSONRPCServer, SimpleJSONRPCServer
         from jsonrpclib.threadpool import ThreadPool
         from vlib import netpeer
@@ -74,7 +74,10 @@ class Workload(object):
             if kind == "simple":
                 return SimpleJSONRPCServer(addr, logRequests=False, address_family=fam)
             if pool_size is not None:
-                self.pool = ThreadPool(pool_size, 0, logname="c12-pool")
+                if pool_timeout is not None:
+                    self.pool = ThreadPool(pool_size, 0, timeout=pool_timeout, logname="c12-pool")
+                else:
+                    self.pool = ThreadPool(pool_size, 0, logname="c12-pool")
                 self.pool.start()
             return PooledJSONRPCServer(addr, logRequests=False, address_family=fam, thread_pool=self.pool)
 
@@ -629,6 +632,58 @@ def oracle_lifecycle(case):
     return Info(nt=life != "serve-shutdown-close", classes=classes, sample=case)
 
 
+def long_inflight_cases(tier):
+    """A request that is still being executed long after the stop began: longer than the user pool's (short) queue
+    timeout and than the 3 s interval at which stop() looks at its workers.  Real time - a handful of cases only."""
+    yield {"pool": 2, "family": "tcp", "pool_timeout": 0.3, "request_s": 3.6, "others": 1}
+    yield {"pool": 1, "family": "unix", "pool_timeout": 1, "request_s": 4.2, "others": 0}
+    if tier == "thorough":
+        yield {"pool": 3, "family": "tcp", "pool_timeout": 2, "request_s": 6.5, "others": 2}
+        yield {"pool": 2, "family": "unix", "pool_timeout": 0.05, "request_s": 9.5, "others": 1}
+
+
+def oracle_long_inflight(case):
+    from jsonrpclib import jsonrpc as J
+
+    w = Workload("pooled", case["pool"], case["family"], pool_timeout=case["pool_timeout"])
+    w.serve()
+    results = []
+
+    def client(i, seconds):
+        tok = "long-%d-%d" % (i, os.getpid())
+        p = J.ServerProxy(w.url)
+        try:
+            results.append((tok, p.slow(tok, int(seconds * 1000))))
+        except Exception as ex:
+            results.append((tok, ex))
+        finally:
+            try:
+                p("close")()
+            except Exception:
+                pass
+    ts = [threading.Thread(target=client, args=(0, case["request_s"]), daemon=True, name="c12-client-long-0")]
+    ts += [threading.Thread(target=client, args=(i + 1, 0.05), daemon=True, name="c12-client-long-%d" % (i + 1)) for i in range(case["others"])]
+    for t in ts:
+        t.start()
+    deadline = time.time() + 5
+    while w.executing[0] == 0 and time.time() < deadline:
+        time.sleep(0.01)
+    began = time.time()
+    # R16: when shutdown() + server_close() have returned no request is being executed and the pool's workers are dead
+    stop_server(w, True, "long-inflight")
+    took = time.time() - began
+    if w.executing[0]:
+        fail("C12/pool-workers-alive", "server_close() returned after %.1f s while %d request(s) were still being executed" % (took, w.executing[0]))
+    for t in ts:
+        t.join(15)
+    for tok, r in results:
+        if not isinstance(r, Exception) and r != tok:
+            fail("C12/crosstalk", "in-flight request %r returned %r" % (tok, r))
+    if not any(r == tok for tok, r in results if tok.startswith("long-0")):
+        fail("C12/lost-request", "the request in flight when the server was stopped was not answered: %r" % (results,))
+    return Info(nt=True, classes=["long-inflight", "family:" + case["family"], "pool-timeout:%s" % case["pool_timeout"]], sample=dict(case, stop_took_s=round(took, 1)))
+
+
 # ---------------------------------------------------------------------------
 # scheduled (E2)
 
@@ -843,6 +898,9 @@ SUBS = [
         budget={"quick": 240, "thorough": 4000}, shards={"quick": 8, "thorough": 16},
         time_cap={"quick": 100, "thorough": 1500}, shrink=False,
         what="lifecycle histories incl. close-without-serve, in-flight requests, bind failure"),
+    Sub("long-inflight", oracle_long_inflight, enumerate=long_inflight_cases, teardown=net_teardown, shards={"quick": 2, "thorough": 4},
+        time_cap={"quick": 100, "thorough": 1500},
+        what="a request still running several seconds after the stop began, on a user pool with a short queue timeout (real time)"),
     Sub("scheduled-sweep", oracle_sched_sweep, enumerate=sched_sweep_cases, shards={"quick": 12, "thorough": 12},
         time_cap={"quick": 100, "thorough": 1500},
         what="pooled server handlers: every single preemption at a distinct source line of 6 small request sets"),
